@@ -76,6 +76,12 @@ impl Expected {
 
 /// Write a generated history into `dir` with the PINNED storage and protocol code.
 pub fn write_pinned(dir: &Path, seed: u64, big: bool) -> anyhow::Result<Expected> {
+    write_pinned_sized(dir, seed, big, 0)
+}
+
+/// `huge` > 0: one version and one snapshot of about that many bytes (legal up to 100 MiB under the
+/// pinned release) are part of the directory.
+pub fn write_pinned_sized(dir: &Path, seed: u64, big: bool, huge: usize) -> anyhow::Result<Expected> {
     let mut rng = Rng::new(seed).fork(0xC19);
     let st = PSqlite::new(dir)?;
     let server = PServer::new(PConfig { snapshot_days: 14, snapshot_versions: 100 }, st);
@@ -91,8 +97,17 @@ pub fn write_pinned(dir: &Path, seed: u64, big: bool) -> anyhow::Result<Expected
         }
         let n = 1 + rng.usize(9);
         let mut parent = if rng.pct(30) { rng.uuid() } else { Uuid::nil() };
+        // a chain may start where another client's chain starts or continues (a replica re-keyed
+        // to a new client id): two clients then hold versions with the same non-nil parent
+        let earlier: Vec<Uuid> = exp.clients.iter().flat_map(|e: &ExpClient| e.versions.iter().flat_map(|v| [v.parent, v.vid])).filter(|u| !u.is_nil()).collect();
+        if !earlier.is_empty() && rng.pct(45) {
+            parent = *rng.pick(&earlier);
+        }
+        let huge_at = if huge > 0 && c == 0 { Some(rng.usize(n)) } else { None };
         for i in 0..n {
-            let len = if big && rng.pct(20) { *rng.pick(&[70_000usize, 300_000, 1_000_000]) } else { *rng.pick(&[1usize, 20, 200, 3900, 4100, 9000]) };
+            let len = if huge_at == Some(i) {
+                huge
+            } else if big && rng.pct(20) { *rng.pick(&[70_000usize, 300_000, 1_000_000]) } else { *rng.pick(&[1usize, 20, 200, 3900, 4100, 9000]) };
             let pay = PaySpec::new(len, (rng.below(10)) as u8, seed.wrapping_mul(31).wrapping_add((c * 100 + i) as u64));
             match server.add_version(id, parent, pay.bytes())? {
                 (PAdd::Ok(v), _) => {
@@ -104,8 +119,8 @@ pub fn write_pinned(dir: &Path, seed: u64, big: bool) -> anyhow::Result<Expected
                 }
                 (PAdd::ExpectedParentVersion(_), _) => anyhow::bail!("unexpected conflict while writing"),
             }
-            if rng.pct(25) {
-                let sp = PaySpec::new(16 + rng.usize(2000), 9, seed ^ (c * 1000 + i) as u64);
+            if rng.pct(25) || huge_at == Some(i) {
+                let sp = PaySpec::new(if huge_at == Some(i) { huge + (1 << 20) } else { 16 + rng.usize(2000) }, 9, seed ^ (c * 1000 + i) as u64);
                 server.add_snapshot(id, parent, sp.bytes())?;
                 // what was stored (the pinned code stamps the time itself)
                 let mut t = server.txn(id)?;
@@ -119,7 +134,7 @@ pub fn write_pinned(dir: &Path, seed: u64, big: bool) -> anyhow::Result<Expected
             }
         }
         // occasionally plant an old snapshot time through the pinned storage API
-        if rng.pct(30) && !ec.versions.is_empty() {
+        if rng.pct(30) && !ec.versions.is_empty() && huge_at.is_none() {
             let v = ec.versions[ec.versions.len().saturating_sub(1 + rng.usize(ec.versions.len().min(4)))].vid;
             let sp = PaySpec::new(40, 9, seed ^ 0xABCD ^ c as u64);
             let ts = chrono::Utc::now() - chrono::Duration::days(rng.range(1, 400) as i64);
@@ -235,6 +250,11 @@ pub fn verify_dir(src: &Path, exp: &Expected, cov: &mut Cov, label: &str) -> Res
                 o => return Err(format!("[{label}] client {}: after appending, old version {} is no longer served: {}", c.id, v.vid, o.short())),
             }
         }
+        if let Some(f) = c.versions.first() {
+            if !f.parent.is_nil() && exp.clients.iter().any(|o| o.id != c.id && o.versions.iter().any(|v| v.parent == f.parent || v.vid == f.parent)) {
+                cov.hit("client-verified:chain-starts-inside-another-clients-chain".into());
+            }
+        }
         cov.hit(format!("client-verified:len{}:{}", c.versions.len().min(9), if c.versions.first().map(|v| v.parent.is_nil()).unwrap_or(true) { "nil-base" } else { "id-base" }));
     }
     Ok(())
@@ -307,7 +327,12 @@ pub fn shard_run(tier: &str, seed: u64, replay_case: Option<usize>, shard: Shard
         }
         let d = ScratchDir::new("c19w");
         let s = Rng::new(seed).fork(0x19_0000 + i as u64).next_u64();
-        let exp = match write_pinned(d.path(), s, i % 8 == 0) {
+        // a few directories hold payloads of 17-40 MiB (thorough: up to the 100 MiB limit)
+        let huge = if i % 120 == 7 { *Rng::new(s).pick(&[17usize << 20, (16 << 20) + 4096, 33 << 20, 40 << 20]) } else if thorough && i % 1000 == 501 { (100 << 20) - 1024 } else { 0 };
+        if huge > 0 {
+            cov.hit(format!("fresh-pinned-directory-with-{}MiB-payloads", huge >> 20));
+        }
+        let exp = match write_pinned_sized(d.path(), s, i % 8 == 0, huge) {
             Ok(e) => e,
             Err(e) => {
                 out.errors.push(format!("pinned writer failed: {e:#}"));
@@ -338,7 +363,7 @@ pub fn finalize(out: ShardOut, is_replay: bool) -> CheckResult {
         "directories": out.executed,
         "situations": top.iter().take(40).map(|(k, v)| json!({"situation": k, "n": v})).collect::<Vec<_>>(),
     });
-    let required = ["corpus:", "corpus-with-leftover-wal", "fresh-pinned-directory", "snapshot-verified", "id-base", "nil-base"];
+    let required = ["corpus:", "corpus-with-leftover-wal", "fresh-pinned-directory", "snapshot-verified", "id-base", "nil-base", "chain-starts-inside-another-clients-chain", "MiB-payloads"];
     let verdict = if !out.found.is_empty() {
         Verdict::Violated(out.found)
     } else if !out.errors.is_empty() {
